@@ -2,10 +2,15 @@
 
 proof   : Properties/C05.v (error_not_swallowed, store_at_failure, twin_equiv over the reference
           evaluator; rest_after_error over the abstract control-state machine; reentry_census_ok over
-          the generated census of VM re-entry points)
+          the generated census of VM re-entry points; read_after_any_history, compile_keeps_loopstack,
+          session_at_rest, error_restores_read_compile, error_restores_run, failed_force_not_memoised over
+          Model/Phases.v - the read / compile / run phases of one load and what each leaves behind;
+          phase_census_ok over the second half of the generated census)
 tie     : translator/cmd/reentry -> coq/Generated/Reentry.v (T);  fault enumeration on the real
           interpreter (harness/cmd/c05) compared with a twin interpreter and with the extracted
-          session evaluator ErrCont.run_session (ocaml/c05/run.ml)
+          session evaluator ErrCont.run_session (ocaml/c05/run.ml);  the PHASE stream (harness/cmd/c05/phases.go):
+          read faults at every token position, compile faults at every sub-form, run faults at every k,
+          each followed by a battery, compared text by text with the extracted Phases.psession_obs
 """
 import json
 import os
@@ -89,6 +94,7 @@ def main(argv):
     ])
     c.assumptions += [
         "stack discipline of compiled code (a frame never pops below the depths it was entered with) is C04's subject; rest_after_error assumes it (outcome Crash excluded)",
+        "Model/Phases.v covers a small run-time language (ints, false, globals, def, begin, failk with an atomic argument, closures created but not called, for loops whose test is the literal false); argument forms of calls are generated at run time by the real interpreter and are outside it (outcome UNSPEC: the session is not compared further)",
         "constructs outside the reference evaluator (lazy arguments, eval, evaluated hash keys / indices, macros, infix, mdef) have no model: they are compared with the twin only",
     ]
 
@@ -125,7 +131,7 @@ def main(argv):
                         stats["phase_sessions_compared"] += 1
                         failed_before = False
                         for i, (x, y) in enumerate(zip(io, mo)):
-                            if y.startswith("UNSPEC") or y.startswith("FUEL"):
+                            if y.startswith("UNSPEC") or y.startswith("FUEL") or x.startswith("BUDGET"):
                                 stats["phase_sessions_model_declined"] += 1
                                 break
                             stats["phase_texts_compared"] += 1
@@ -224,6 +230,6 @@ def main(argv):
                         no_input=True, tag="census")
         elif c.proof_break:
             c.violation({"kind": "proof obligation no longer checks", "detail": c.proof_break,
-                         "note": "reentry_census_ok breaks when a function of package zygo that re-enters Run() appears, disappears or changes its capture/restore shape (coq/Generated/Reentry.v is regenerated from the source on every run)"},
+                         "note": "phase_census_ok breaks when Lexer.Reset / Parser.ResetAddNewInput no longer clear a field, LoadStream no longer resets first, GenerateForLoop no longer pops the loop stack by defer, LoadExpressions appends before the text compiled, or SexpLazyArg.Force marks the cell forced on a path where Run failed; reentry_census_ok breaks when a function of package zygo that re-enters Run() appears, disappears or changes its capture/restore shape (coq/Generated/Reentry.v is regenerated from the source on every run)"},
                         no_input=True, tag="proof")
     c.finish("proof")
